@@ -73,7 +73,16 @@ while os.path.isdir(os.path.join(args.worlds, "world%d" % k)):
     d = os.path.join(args.worlds, "world%d" % k)
     keys = json.load(open(os.path.join(d, "keys.json"), encoding="utf-8"))
     dic = sudachipy.Dictionary(config_path=os.path.join(d, "sudachi.json"), resource_dir=d)
-    WORLDS.append({"dir": d, "keys": [x for x in keys if x], "dic": dic})
+    # the same world with the optional configuration key "projection" set (Dictionary.create(projection=...)
+    # overrides it, also with the value "surface")
+    dics = {None: dic}
+    base_cfg = json.load(open(os.path.join(d, "sudachi.json"), encoding="utf-8"))
+    for cp in ("reading", "normalized", "dictionary"):
+        cfgp = os.path.join(d, "sudachi-proj-%s.json" % cp)
+        with open(cfgp, "w", encoding="utf-8") as f:
+            json.dump(dict(base_cfg, projection=cp), f, ensure_ascii=False)
+        dics[cp] = sudachipy.Dictionary(config_path=cfgp, resource_dir=d)
+    WORLDS.append({"dir": d, "keys": [x for x in keys if x], "dic": dic, "dics": dics})
     k += 1
 assert WORLDS, "no worlds"
 
@@ -169,24 +178,28 @@ def run_example(ex):
     nontrivial = False
     special_before = False
 
-    def make(mode, fields, proj):
+    def make(mode, fields, proj, cfgproj=None):
         kw = {}
         if fields is not None:
             kw["fields"] = set(fields)
         if proj is not None:
             kw["projection"] = proj
-        t = dic.create(MODES[mode] if mode else None, **kw) if mode else dic.create(**kw)
+        d = w["dics"][cfgproj]
+        t = d.create(MODES[mode] if mode else None, **kw) if mode else d.create(**kw)
+        # the argument wins over the configuration key, "surface" included
+        eff = proj if proj is not None else cfgproj
         bits = 1023 if fields is None else 0
         for f in fields or []:
             bits |= FIELDS[f]
-        bits |= PROJ_REQUIRED[proj]
-        toks.append({"tok": t, "mode": mode or "C", "subset": close_subset(bits), "raw_subset": bits, "proj": proj})
+        bits |= PROJ_REQUIRED[eff]
+        # lists are only reused between tokenizers of one Dictionary object and one effective projection
+        toks.append({"tok": t, "mode": mode or "C", "subset": close_subset(bits), "raw_subset": bits, "proj": eff, "family": (cfgproj, eff)})
 
     make(None, None, None)
     for op in ex["ops"]:
         kind = op[0]
         if kind == "create":
-            make(op[1], op[2], op[3])
+            make(op[1], op[2], op[3], op[4] if len(op) > 4 else None)
         elif kind == "tokenize":
             t = toks[op[1] % len(toks)]
             text = op[2]
@@ -198,7 +211,7 @@ def run_example(ex):
                 kw["mode"] = MODES[override] if op[5] else override
             # a result list keeps the projection of the tokenizer that created it: reuse it only
             # with tokenizers of the same projection (the documented use: the same tokenizer)
-            if reuse and out_list is not None and out_proj == t["proj"]:
+            if reuse and out_list is not None and out_proj == t["family"]:
                 kw["out"] = out_list
             o = ORACLE.ask({"world": widx, "op": "tokenize", "text": text, "mode": eff, "subset": t["raw_subset"]})
             # a Morpheme object that outlives the reuse of its list: reading it afterwards may raise,
@@ -232,8 +245,8 @@ def run_example(ex):
                 special_before = True
             if out_list is None or (reuse and "out" not in kw):
                 out_list = ml
-                out_proj = t["proj"]
-            last = (ml, o["morphemes"], t["subset"], t["proj"], text)
+                out_proj = t["family"]
+            last = (ml, o["morphemes"], t["subset"], t["proj"], text, t["family"])
         elif kind == "tokenize_rejected":
             # an input beyond the 49,149 byte limit: both sides must refuse it, and the tokenizer must
             # be as usable afterwards as before (mode override restored)
@@ -256,7 +269,7 @@ def run_example(ex):
         elif kind == "split":
             if last is None or len(last[0]) == 0:
                 continue
-            ml, om, subset, proj, text = last
+            ml, om, subset, proj, text, family = last
             i = op[1] % len(ml)
             mode = op[2]
             add_single = op[4]
@@ -264,7 +277,10 @@ def run_example(ex):
             if add_single is not None:
                 kw["add_single"] = add_single
             spare = None
-            if op[3]:
+            if op[3] == 2 and out_list is not None and out_list is not ml and out_proj == family:
+                # a list that holds the result of ANOTHER tokenize call (another text) as output list
+                kw["out"] = out_list
+            elif op[3]:
                 spare = ml[i].split(MODES[mode])  # a list to reuse
                 kw["out"] = spare
             res = ml[i].split(MODES[mode] if op[5] else mode, **kw)
@@ -279,7 +295,7 @@ def run_example(ex):
         elif kind == "lookup":
             surface = op[1]
             kw = {}
-            if op[2] and out_list is not None and out_proj is None:
+            if op[2] and out_list is not None and out_proj == (None, None):
                 kw["out"] = out_list
             o = ORACLE.ask({"world": widx, "op": "lookup", "surface": surface})
             try:
@@ -308,11 +324,11 @@ def example_strategy():
     def ops_for(world):
         t = text_for(world)
         op = st.one_of(
-            st.tuples(st.just("create"), st.one_of(st.none(), modes), fields, st.sampled_from(PROJECTIONS)),
+            st.tuples(st.just("create"), st.one_of(st.none(), modes), fields, st.sampled_from(PROJECTIONS), st.sampled_from([None, None, "reading", "normalized", "dictionary"])),
             st.tuples(st.just("tokenize"), st.integers(0, 5), t, st.one_of(st.none(), st.none(), modes), st.booleans(), st.booleans()),
             st.tuples(st.just("tokenize"), st.integers(0, 5), t, st.one_of(st.none(), st.none(), modes), st.booleans(), st.booleans()),
             st.tuples(st.just("tokenize_rejected"), st.integers(0, 5), st.integers(0, 6), st.one_of(st.none(), modes)),
-            st.tuples(st.just("split"), st.integers(0, 50), st.sampled_from(["A", "B"]), st.booleans(), st.one_of(st.none(), st.booleans()), st.booleans()),
+            st.tuples(st.just("split"), st.integers(0, 50), st.sampled_from(["A", "B"]), st.sampled_from([0, 1, 2, 2]), st.one_of(st.none(), st.booleans()), st.booleans()),
             st.tuples(st.just("lookup"), st.one_of(st.sampled_from(WORLDS[world]["keys"]), t), st.booleans()),
         )
         return st.lists(op, min_size=1, max_size=10)
@@ -337,8 +353,14 @@ def one(ex):
     except Violation as v:
         STATE["failure"] = {"clause": v.clause, "detail": v.detail, "case": {"python": exj}}
         raise
-    except Exception as e:
+    except BaseException as e:
+        if isinstance(e, (KeyboardInterrupt, SystemExit, GeneratorExit)):
+            raise
+        # pyo3's PanicException derives from BaseException: turn it into an ordinary failure so that it is
+        # recorded with its history and shrunk like any other
         STATE["failure"] = {"clause": "python-exception:" + type(e).__name__, "detail": "".join(traceback.format_exception_only(type(e), e)).strip(), "case": {"python": exj}}
+        if not isinstance(e, Exception):
+            raise Violation("python-exception:" + type(e).__name__, STATE["failure"]["detail"])
         raise
     if nt:
         STATE["nontrivial"] += 1
@@ -395,7 +417,22 @@ def limit_examples():
     return exs
 
 
+def corpus_examples():
+    """pinned histories (reproducers of fixed findings): corpus/C19/python/*.json next to this checkout"""
+    d = os.path.join(os.path.dirname(os.path.dirname(os.path.abspath(__file__))), "corpus", "C19", "python")
+    exs = []
+    if os.path.isdir(d):
+        for f in sorted(os.listdir(d)):
+            if f.endswith(".json"):
+                c = json.load(open(os.path.join(d, f), encoding="utf-8"))
+                c = c.get("case", c)
+                exs.append(c["python"])
+    return exs
+
+
 try:
+    for _ex in corpus_examples():
+        one(_ex)
     for _ex in limit_examples():
         one(_ex)
     campaign()
